@@ -5,6 +5,7 @@ package harness
 import (
 	"bytes"
 	"fmt"
+	"reflect"
 	"testing"
 
 	"github.com/ipfs/go-cid"
@@ -83,7 +84,40 @@ func c14OneNode(t *rapid.T, st *Store, ls *ipld.LinkSystem, ev *Evid) *c14Kept {
 	class := rapid.SampledFrom([]string{"non-dagpb", "pb-nodata", "pb-garbage", "pb-unixfs", "pb-unixfs", "pb-unixfs", "pb-unixfs"}).Draw(t, "class")
 	if class == "non-dagpb" {
 		var n datamodel.Node
-		switch rapid.IntRange(0, 4).Draw(t, "nd") {
+		switch rapid.IntRange(0, 9).Draw(t, "nd") {
+		case 5, 6, 7, 8:
+			// nodes that are not dag-pb because they are ADLs already: a reified directory / sharded directory / multi-block
+			// file, or a file view over a raw leaf - reifying them (again) gives them back unchanged
+			ast := NewStore()
+			var c cid.Cid
+			var e error
+			switch rapid.IntRange(0, 3).Draw(t, "adlKind") {
+			case 0:
+				c, _, e = buildDir(ast, []entrySpec{entryFor("a", 1), entryFor("b", 1)})
+			case 1:
+				var es []entrySpec
+				for i := 0; i < 30; i++ {
+					es = append(es, entryFor(fmt.Sprintf("e%d", i), 1))
+				}
+				c, _, e = buildSharded(ast, es, 8)
+			case 2:
+				c, _, e = buildFile(ast, lcgBytes(40, 1, 0), "size-8", 2)
+			default:
+				c, _, e = buildFile(ast, []byte("one raw leaf"), "size-64", 2)
+			}
+			if e != nil {
+				t.Fatalf("harness: %v", e)
+			}
+			als := ast.LinkSystem()
+			n, e = loadReified(als, c, rapid.SampledFrom([]string{"unixfs", "unixfs-preload"}).Draw(t, "firstReifier"))
+			if e != nil {
+				t.Fatalf("harness: %v", e)
+			}
+		case 9:
+			n = foreignADL{basicnode.NewString("not unixfs"), func() datamodel.Node {
+				pn, _ := loadPlain(st.LinkSystem(), mustDir(st))
+				return pn
+			}()}
 		case 0:
 			n = basicnode.NewBytes(rapid.SliceOfN(rapid.Byte(), 0, 10).Draw(t, "b"))
 		case 1:
@@ -101,8 +135,8 @@ func c14OneNode(t *rapid.T, st *Store, ls *ipld.LinkSystem, ev *Evid) *c14Kept {
 		var rn datamodel.Node
 		var err error
 		must(t, "reify non-dag-pb", func() { rn, err = reify(n) })
-		if err != nil || rn != n {
-			t.Fatalf("C14: %s of a non-dag-pb %s node returned (%v, %v); want the same node back", reifier, n.Kind(), rn, err)
+		if err != nil || !sameNode(rn, n) {
+			t.Fatalf("C14: %s of a non-dag-pb %s node (%T) returned (%T %v, %v); want the same node back", reifier, n.Kind(), n, rn, rn, err)
 		}
 		ev.Case("non-dagpb "+n.Kind().String()+" "+reifier, false, "class:non-dagpb")
 		return nil
@@ -357,4 +391,37 @@ func TestC14_P_ReifyAfterFailedReify(t *testing.T) {
 		ev.Case(fmt.Sprintf("%s b=%s", kind, bucket(len(blocks))), true, "kind:"+kind)
 		ev.Sample(map[string]any{"kind": kind, "blocks_below_root": len(blocks)})
 	})
+}
+
+// foreignADL is some other ADL (not UnixFS) whose substrate happens to be a dag-pb directory node.
+type foreignADL struct {
+	datamodel.Node
+	sub datamodel.Node
+}
+
+func (f foreignADL) Substrate() datamodel.Node { return f.sub }
+
+func mustDir(st *Store) cid.Cid {
+	c, _, err := buildDir(st, []entrySpec{entryFor("x", 1)})
+	if err != nil {
+		panic(err)
+	}
+	return c
+}
+
+// sameNode: the very same node - same dynamic type and, for pointers, the same object; values compare by ==, or deeply
+// when the type is not comparable.
+func sameNode(a, b datamodel.Node) (same bool) {
+	if a == nil || b == nil || reflect.TypeOf(a) != reflect.TypeOf(b) {
+		return false
+	}
+	if reflect.ValueOf(a).Kind() == reflect.Ptr {
+		return reflect.ValueOf(a).Pointer() == reflect.ValueOf(b).Pointer()
+	}
+	defer func() {
+		if recover() != nil {
+			same = reflect.DeepEqual(a, b)
+		}
+	}()
+	return a == b
 }
